@@ -174,6 +174,17 @@ def audit(prop: str, imports: list[str], theorems: list[str]) -> AuditResult:
     return AuditResult(ok, per, missing, bad, hits, log, "cd lean && " + " ".join(cmd[:3]) + f" .lake/audit/Audit_{prop}.lean")
 
 
+def leanchecker(modules: list[str]) -> tuple[bool, str, float]:
+    """`lake env leanchecker <modules>`: the toolchain's independent re-checker of the compiled .olean files (thorough tier)."""
+    t0 = time.time()
+    with lake_lock():
+        try:
+            p = subprocess.run(["lake", "env", "leanchecker", *modules], cwd=LEAN_DIR, capture_output=True, text=True, timeout=3000)
+        except subprocess.TimeoutExpired as e:
+            raise InfraError(f"leanchecker timed out: {e}")
+    return p.returncode == 0, p.stdout + p.stderr, time.time() - t0
+
+
 class Driver:
     """Batch interface to the compiled Lean model (`lean/.lake/build/bin/driver`)."""
 
